@@ -416,6 +416,11 @@ def run_case(vk, case):
           and cfg.get("tiebreak") is None and any(len(s0) > 1 for b in spec["b"] for s0 in b["r"])):
         # documented rejection: ballots with tied positions need a tiebreak method (the profile is not accepted)
         tags.append("rejected:ties-without-tiebreak")
+    elif (rule in elect.STV_FAMILY and cfg.get("transfer") == "random" and res["status"] == "exn"
+          and res["exn"] == "TypeError" and "does not have integer weight" in res.get("msg", "")
+          and any(Fraction(b["w"]).denominator != 1 for b in spec["b"])):
+        # documented rejection: "All ballots must have integer weights" under the random transfer
+        tags.append("rejected:random-transfer-fractional-weight")
     else:
         failure = classify_failure(rule, cfg, spec, res, names)
         monitors.append({"name": "escaped-exception" if res["status"] == "exn" else "non-termination",
